@@ -14,7 +14,7 @@ import typing as T
 
 from harness import refninja
 from harness.core import Ctx, Evidence, Failure, HarnessError, REPO, campaign, make_scratch, pmap, shard_seeds, fp
-from harness.mesondrv import run_inproc, run_sub
+from harness.mesondrv import run_inproc, run_sub, write_tree
 from harness import projgen
 
 LEVEL = 'exploration'
@@ -147,6 +147,9 @@ def check_reachability(m: refninja.Manifest, model: dict, case: T.Any) -> T.Opti
     return None
 
 
+RSP_THRESHOLDS = [None, None, None, 0, 300, 600, 1000]
+
+
 def nontrivial(model: dict) -> bool:
     if model.get('collision'):
         return True
@@ -163,11 +166,25 @@ def check_model(model: dict, workdir: str, ev: T.Optional[Evidence] = None, conf
     try:
         projgen.write_project(model, src)
         args = ['setup'] + projgen.setup_args(model) + [bld, src]
-        r = run_inproc(args)
+        # response-file threshold (bytes of command line above which a statement uses the NAME_RSP form of its rule):
+        # derived from the model so that a third of the projects mix plain and _RSP statements of the same rule, and
+        # some use _RSP everywhere.  In-process the module-level constant is set (it is read from the environment at
+        # import time); the confirming subprocess gets MESON_RSP_THRESHOLD.
+        thr = RSP_THRESHOLDS[fp(model)[0] % len(RSP_THRESHOLDS)]
+        import mesonbuild.backend.ninjabackend as nb
+        from mesonbuild import mesonlib
+        old_thr = nb.rsp_threshold
+        nb.rsp_threshold = mesonlib.get_rsp_threshold() if thr is None else thr
+        try:
+            r = run_inproc(args)
+        finally:
+            nb.rsp_threshold = old_thr
         f = _judge(model, r, bld)
+        if ev is not None:
+            ev.event(f'rsp_threshold:{thr}')
         if f is not None and confirm:
             shutil.rmtree(bld, ignore_errors=True)
-            r2 = run_sub(args)
+            r2 = run_sub(args, env=None if thr is None else {'MESON_RSP_THRESHOLD': str(thr)})
             f2 = _judge(model, r2, bld)
             if f2 is None:
                 if ev is not None:
@@ -254,7 +271,87 @@ def _corpus_shard(shard: T.List[str], ev: Evidence, fails: T.List[Failure]) -> N
         shutil.rmtree(work, ignore_errors=True)
 
 
+
+# -- matrix of "targets a test runs or depends on" (one project, every accepted kind x role x test/benchmark) ---------------
+
+def prereq_matrix(ctx: Ctx) -> None:
+    """One generated project in which every kind of build product that test()/benchmark() accept (executable, jar,
+    custom_target, indexed custom_target) appears in every role (program run, argument, depends:) and is NOT built by
+    default, so only the prereq aggregate can pull it in.  Oracle: the producing statement is reachable from
+    meson-test-prereq / meson-benchmark-prereq."""
+    import shutil as _sh
+    have_java = bool(_sh.which('javac'))
+    kinds = ['exe', 'ct', 'cti'] + (['jar'] if have_java else [])
+    if not have_java:
+        ctx.ev.exclude('prereq matrix: jar() rows (no javac)')
+    work = os.path.join(ctx.scratch, 'prereq-matrix')
+    src, bld = os.path.join(work, 'src'), os.path.join(work, 'bld')
+    os.makedirs(src)
+    lines = ["project('prereq matrix', %s)" % ', '.join(["'c'"] + (["'java'"] if have_java else [])),
+             "py = find_program('python3')", "runner = executable('runner', 'main.c')"]
+    files = {'main.c': 'int main(void) { return 0; }\n', 'gen.py': "import sys\nfor p in sys.argv[1:]:\n    open(p, 'w').write('#!/bin/sh\\nexit 0\\n')\n"}
+    want: T.List[T.Tuple[str, str, str]] = []      # (aggregate, output basename, description)
+    n = 0
+    for bench in (False, True):
+        fn, agg = ('benchmark', 'meson-benchmark-prereq') if bench else ('test', 'meson-test-prereq')
+        for kind in kinds:
+            for role in ('program', 'argument', 'depends'):
+                n += 1
+                v = f'v{n}'
+                if kind == 'exe':
+                    files[f'm{n}.c'] = 'int main(void) { return 0; }\n'
+                    lines.append(f"{v} = executable('x{n}', 'm{n}.c', build_by_default: false)")
+                    out, ref = f'x{n}', v
+                elif kind == 'jar':
+                    files[f'J{n}.java'] = f'public class J{n} {{ public static void main(String[] a) {{ }} }}\n'
+                    lines.append(f"{v} = jar('j{n}', 'J{n}.java', main_class: 'J{n}', build_by_default: false)")
+                    out, ref = f'j{n}.jar', v
+                elif kind == 'ct':
+                    lines.append(f"{v} = custom_target('c{n}', output: 'c{n}.sh', command: [py, files('gen.py'), '@OUTPUT@'], build_by_default: false)")
+                    out, ref = f'c{n}.sh', v
+                else:
+                    lines.append(f"{v} = custom_target('i{n}', output: ['i{n}a.sh', 'i{n}b.sh'], command: [py, files('gen.py'), '@OUTPUT@'], build_by_default: false)")
+                    out, ref = f'i{n}b.sh', f'{v}[1]'
+                if role == 'program':
+                    lines.append(f"{fn}('t{n}', {ref})")
+                elif role == 'argument':
+                    lines.append(f"{fn}('t{n}', runner, args: [{ref}])")
+                else:
+                    lines.append(f"{fn}('t{n}', runner, depends: [{v}])")
+                want.append((agg, out, f'{fn} t{n}: {kind} as {role}'))
+    files['meson.build'] = '\n'.join(lines) + '\n'
+    write_tree(src, files)
+    r = run_sub(['setup', bld, src], timeout=300)
+    if r.rc != 0:
+        raise HarnessError(f'prereq matrix project does not configure:\n{r.text[-1500:]}')
+    case = {'special': 'prereq-matrix', 'meson.build': files['meson.build']}
+    m, f = judge_manifest(bld, case)
+    if f is not None:
+        ctx.fail(f)
+        return
+    assert m is not None
+    by_base: T.Dict[str, T.List[str]] = {}
+    for p in m.producer:
+        by_base.setdefault(os.path.basename(p), []).append(p)
+    closures: T.Dict[str, T.Set[int]] = {}
+    for agg, out, what in want:
+        if agg not in closures:
+            if agg not in m.producer:
+                ctx.fail(Failure('reach/no-prereq-aggregate', case, f'{agg} is not defined'))
+                return
+            closures[agg] = m.closure([agg])[0]
+        ps = by_base.get(out, [])
+        ctx.ev.case({'special': what}, nontrivial=True, cls='prereq-matrix', sample=what)
+        if not ps:
+            ctx.fail(Failure('manifest/target-has-no-statement', case, f'{what}: no statement produces {out}'))
+        elif any(id(m.producer[p]) not in closures[agg] for p in ps):
+            ctx.fail(Failure(f'reach/prereq-misses:{what.split(": ")[1].replace(" ", "-")}', case,
+                             f'{what}: {out} is not reachable from {agg} (the target is not built by default, so `meson test` would run without it)'))
+    shutil.rmtree(work, ignore_errors=True)
+
+
 def run(ctx: Ctx) -> None:
+    prereq_matrix(ctx)
     per = ctx.n(50, 400)
     pmap(ctx, _gen_shard, [(s, per) for s in shard_seeds(ctx, 16)])
     if not ctx.quick:
@@ -265,6 +362,10 @@ def run(ctx: Ctx) -> None:
 
 
 def replay(ctx: Ctx, case: T.Any, doc: dict) -> T.Optional[Failure]:
+    if isinstance(case, dict) and case.get('special') == 'prereq-matrix':
+        c2 = Ctx(ctx.prop, ctx.tier, ctx.seed)
+        prereq_matrix(c2)
+        return next(iter(c2.failures.values()), None)
     if isinstance(case, dict) and 'corpus' in case:
         fails: T.List[Failure] = []
         _corpus_shard([os.path.join(REPO, case['corpus'])], Evidence(), fails)
